@@ -209,11 +209,11 @@ def main():
     results = []
     errors = []
     if "pregen" in spec:
-        pg = subprocess.run(spec["pregen"], env=dict(os.environ, VERIF_REPO=REPO), stdout=subprocess.PIPE, stderr=subprocess.STDOUT, text=True)
+        pg = subprocess.run(spec["pregen"], cwd=VERIF, env=dict(os.environ, VERIF_REPO=REPO), stdout=subprocess.PIPE, stderr=subprocess.STDOUT, text=True)
         if pg.returncode != 0:
             errors.append("pregen failed: " + pg.stdout[-2000:])
-    if "covers_file" in spec and os.path.exists(spec["covers_file"]):
-        spec = dict(spec, covers=list(spec.get("covers", [])) + json.load(open(spec["covers_file"])))
+    if "covers_file" in spec and os.path.exists(os.path.join(VERIF, spec["covers_file"])):
+        spec = dict(spec, covers=list(spec.get("covers", [])) + json.load(open(os.path.join(VERIF, spec["covers_file"]))))
     for g in spec["groups"]:
         if tier == "quick" and g.get("thorough_only"):
             continue
